@@ -208,7 +208,19 @@ static void run_cfg(vmc::Ctx& ctx, const Cfg& c)
   // ---------------- uninterrupted run
   std::vector<std::vector<float>> U;
   Built bu; std::string err;
-  if (!run_recon(ctx, w, m, c, K, 1, &init, "", prefix, c.files != 0, U, bu, err))
+  // "files" mode: the uninterrupted run also starts from an image FILE (as a run from a parameter file does), so that all runs share
+  // the geometry that the Interfile header can represent (it keeps 6 significant digits of the voxel size; an image read back has a
+  // voxel size that differs in the 7th digit, which changes e.g. the inter-iteration filter kernel by ~1e-5 - C10's subject, not C07's)
+  std::string init_file;
+  if (c.files)
+    {
+      init_file = prefix + "_init";
+      std::string wf = init_file;
+      if (small::throws([&] { OutputFileFormat<Target>::default_sptr()->write_to_file(wf, *to_image(w, init)); }, &err))
+        { ctx.count("rejected_configs"); ctx.observe("cannot write the initial image: " + err.substr(0, 200)); return; }
+      init_file = wf;
+    }
+  if (!run_recon(ctx, w, m, c, K, 1, c.files ? nullptr : &init, init_file, prefix, c.files != 0, U, bu, err))
     {
       ctx.count("rejected_configs");
       if (err.find("unbalanced") == std::string::npos && err.find("balanced") == std::string::npos) ctx.observe("configuration rejected: " + kase + " : " + err.substr(0, 200));
